@@ -86,6 +86,29 @@ def _paths(root):
     return res
 
 
+def _diffs(a, b, path):
+    """Paths (as in _paths) at which two syntax trees differ; a differing node type, list length or plain field ends the descent."""
+    if type(a) is not type(b):
+        return [path]
+    out = []
+    for f, va in _ast.iter_fields(a):
+        vb = getattr(b, f, None)
+        if isinstance(va, list):
+            if not isinstance(vb, list) or len(va) != len(vb):
+                out.append(path)
+                continue
+            for i, (x, y) in enumerate(zip(va, vb)):
+                if isinstance(x, _ast.AST) or isinstance(y, _ast.AST):
+                    out.extend(_diffs(x, y, path + ((f, i),)))
+                elif x != y:
+                    out.append(path)
+        elif isinstance(va, _ast.AST) or isinstance(vb, _ast.AST):
+            out.extend(_diffs(va, vb, path + ((f, None),)))
+        elif va != vb:
+            out.append(path)
+    return out
+
+
 def _replace_at(root, path, repl):
     node = root
     for f, i in path[:-1]:
@@ -211,10 +234,37 @@ def _check_mutators(part: Part, tier, seed):
             __import__("pynguin.utils.randomness", fromlist=["RNG"]).RNG.seed(seed)
             if n_full > (2000 if tier == "thorough" else 500):
                 continue          # (enumerations are always run to their end: an abandoned generator has not restored yet)
-            for muts, mutant in HighOrderMutator(ops, hom_strategy=strat).mutate(tree, module):
-                if len(muts) < 1:
-                    part.violation("a higher-order mutant applies at least one mutation", "hom-empty", {"module": name}, target=f"{MU}:HighOrderMutator.mutate")
-            if not intact(f"hom:{type(strat).__name__}"):
+            sname = type(strat).__name__
+            n_hom = 0
+            try:
+                for muts, mutant in HighOrderMutator(ops, hom_strategy=strat).mutate(tree, module):
+                    n_hom += 1
+                    if len(muts) < 1:
+                        part.violation("a higher-order mutant applies at least one mutation", "hom-empty", {"module": name}, target=f"{MU}:HighOrderMutator.mutate")
+                    # while the mutant is applied in place: every difference from the original lies at or below a mutated node
+                    mutated = [paths.get(id(m.node)) for m in muts]
+                    known_paths = [p_ for p_ in mutated if p_ is not None]
+                    stray = [d for d in _diffs(ParentNodeTransformer.create_ast(src), tree, ())
+                             if not any(d[:len(p_)] == p_ for p_ in known_paths)]
+                    if stray and known_paths:
+                        part.violation("each mutant differs from the original only at its mutated nodes", f"hom-stray-difference:{sname}",
+                                       {"module": name, "strategy": sname, "mutant_number": n_hom,
+                                        "mutations": [(m.operator.__name__, repr(paths.get(id(m.node)))) for m in muts],
+                                        "differences_elsewhere": [repr(d) for d in stray[:3]]}, target=f"{MU}:HighOrderMutator.mutate")
+                        break
+            except Exception as ex:  # noqa: BLE001
+                import traceback as _tb
+                last = _tb.extract_tb(ex.__traceback__)[-1]
+                if "mutation_analysis" not in last.filename:
+                    raise
+                # the enumeration itself failed (the harness only iterates): report it together with the state of the original tree
+                part.violation("enumerating higher-order mutants yields the mutants and leaves the original tree unchanged",
+                               f"hom-enumeration-raised:{sname}",
+                               {"module": name, "strategy": sname, "after_mutants": n_hom, "error": f"{type(ex).__name__}: {ex}"[:200],
+                                "raised_at": f"{last.filename.rsplit('/', 1)[-1]}:{last.name}", "original_tree_intact": _dump(tree) == pristine},
+                               target=f"{MU}:HighOrderMutator.mutate")
+                return
+            if not intact(f"hom:{sname}"):
                 return
 
 
